@@ -33,6 +33,7 @@ pub fn run(out: &mut Out, seed: u64, tier: &str) {
     // the previous opt.xyz is a well-formed, much longer file: a tail of it surviving the new write would still parse as atoms
     let sentinel: Vec<u8> = { let mut t = String::from("60\nSENTINEL previous opt.xyz\n"); for k in 0..60 { t += &format!("Xe  {:11.6} {:11.6} {:11.6}\n", k as f64, 1.0, -2.0); } t.into_bytes() };
     let (mut n_runs, mut n_ok, mut n_refused) = (0usize, 0usize, 0usize);
+    let mut n_ambiguous = 0usize;
     for k in 0..n_mols {
         let m0 = if k < 4 { library()[[0usize, 3, 4, 8][k]].clone() } else { random_mol(&mut rng) };
         let mut m = distort(&m0, 0.08, &mut rng);
@@ -85,13 +86,19 @@ pub fn run(out: &mut Out, seed: u64, tier: &str) {
             let (syms, xs) = match parse_xyz(r.opt.as_ref().unwrap()) { Some(v) => v, None => { out.oracle_fail("opt.xyz is not a readable xyz file", &replay); continue; } };
             if syms != mr.symbols() { out.oracle_fail(&format!("opt.xyz holds atoms {:?}, the input {:?}", syms, mr.symbols()), &replay); }
             if !xs.iter().all(|p| p.iter().all(|v| v.is_finite())) { out.oracle_fail("opt.xyz holds non-finite coordinates", &replay); }
-            let mut matched = None;
+            // which library optimisation does opt.xyz equal? If both force fields give the same structure to the written
+            // precision (an isolated atom, a start both leave alone) the observation cannot tell them apart: then the one the
+            // arguments ask for is reported, so that an indistinguishable pair is not read as the wrong choice
+            let asks_rb = args.iter().any(|a| a.contains("RB"));
+            let mut both: Vec<(&str, crate::s_opt::OptResult)> = vec![];
             for kind in ["uff", "rb"] {
                 if let Some(res) = optimise_checked(&mr, kind) {
                     let close = res.xf.len() == xs.len() && res.xf.iter().zip(xs.iter()).all(|(a, b)| (0..3).all(|c| (a[c] - b[c]).abs() <= 1.0e-6 + 1e-9 * a[c].abs()));
-                    if close { matched = Some((kind, res)); break; }
+                    if close { both.push((kind, res)); }
                 }
             }
+            if both.len() == 2 { n_ambiguous += 1; if asks_rb { both.remove(0); } }
+            let matched = both.into_iter().next();
             match matched {
                 None => { out.case(&input, "wrote unknown"); out.oracle_fail("opt.xyz matches neither the UFF nor the RB library optimisation to the written precision", &replay); }
                 Some((kind, res)) => {
@@ -104,5 +111,6 @@ pub fn run(out: &mut Out, seed: u64, tier: &str) {
     out.stat("runs", n_runs);
     out.stat("successes", n_ok);
     out.stat("refusals", n_refused);
+    out.stat("outputs_equal_under_both_force_fields", n_ambiguous);
     out.sample("optrs in.xyz --forcefield=RB  (fresh directory, pre-existing opt.xyz)");
 }
